@@ -17,7 +17,11 @@ type FCFG struct {
 	Info     *types.Info
 	Body     *ast.BlockStmt
 	boolDefs map[*types.Var]ast.Expr
-	idom     map[*cfg.Block]*cfg.Block
+	// tagOf: case expression of a tagged switch -> the (side-effect free) tag; go/cfg records only
+	// "one half of the tag==cond condition" in the branching block, CondOf supplies the whole
+	tagOf map[ast.Expr]ast.Expr
+	synth map[ast.Expr]*ast.BinaryExpr
+	idom  map[*cfg.Block]*cfg.Block
 	order    map[*cfg.Block]int
 	preds    map[*cfg.Block][]*cfg.Block
 }
@@ -49,9 +53,44 @@ func mayReturn(info *types.Info) func(*ast.CallExpr) bool {
 
 func NewFCFG(info *types.Info, body *ast.BlockStmt) *FCFG {
 	g := cfg.New(body, mayReturn(info))
-	f := &FCFG{G: g, Info: info, Body: body}
+	f := &FCFG{G: g, Info: info, Body: body, tagOf: map[ast.Expr]ast.Expr{}, synth: map[ast.Expr]*ast.BinaryExpr{}}
+	ast.Inspect(body, func(n ast.Node) bool {
+		sw, ok := n.(*ast.SwitchStmt)
+		if !ok || sw.Tag == nil || !pureTag(sw.Tag) {
+			return true
+		}
+		for _, cl := range sw.Body.List {
+			if cc, ok := cl.(*ast.CaseClause); ok {
+				for _, e := range cc.List {
+					f.tagOf[e] = sw.Tag
+				}
+			}
+		}
+		return true
+	})
 	f.computeDom()
 	return f
+}
+
+// pureTag: an identifier / selector / constant-index chain — evaluating it
+// again at every case is the same as evaluating it once.
+func pureTag(e ast.Expr) bool {
+	switch x := ast.Unparen(e).(type) {
+	case *ast.Ident:
+		return true
+	case *ast.SelectorExpr:
+		return pureTag(x.X)
+	case *ast.IndexExpr:
+		if _, ok := ast.Unparen(x.Index).(*ast.BasicLit); ok {
+			return pureTag(x.X)
+		}
+		if _, ok := ast.Unparen(x.Index).(*ast.Ident); ok {
+			return pureTag(x.X)
+		}
+	case *ast.StarExpr:
+		return pureTag(x.X)
+	}
+	return false
 }
 
 func (f *FCFG) computeDom() {
@@ -173,6 +212,15 @@ func (f *FCFG) CondOf(b *cfg.Block) ast.Expr {
 		return nil
 	}
 	e, _ := b.Nodes[len(b.Nodes)-1].(ast.Expr)
+	if tag, ok := f.tagOf[e]; ok && e != nil {
+		// `switch tag { case e:` — the branch taken here is decided by tag == e
+		if be, ok := f.synth[e]; ok {
+			return be
+		}
+		be := &ast.BinaryExpr{X: tag, OpPos: e.Pos(), Op: token.EQL, Y: e}
+		f.synth[e] = be
+		return be
+	}
 	return e
 }
 
@@ -313,6 +361,7 @@ type LitAtom struct {
 // negated disjuncts of a false `||` are implied; anything else is not.
 func impliedAtoms(cond ast.Expr, edgeTrue bool) []LitAtom {
 	var out []LitAtom
+	depth := 0
 	var walk func(e ast.Expr, want bool)
 	walk = func(e ast.Expr, want bool) {
 		e = ast.Unparen(e)
@@ -335,6 +384,14 @@ func impliedAtoms(cond ast.Expr, edgeTrue bool) []LitAtom {
 			}
 			if x.Op == token.LAND || x.Op == token.LOR {
 				return // a disjunction of facts: no single atom is implied
+			}
+		case *ast.Ident:
+			// a boolean local that abbreviates a condition reads as that condition
+			if d, ok := boolLocalUse[x]; ok && depth < 4 {
+				depth++
+				walk(d, want)
+				depth--
+				return
 			}
 		}
 		out = append(out, LitAtom{e, want})
